@@ -402,6 +402,64 @@ def read3d {V T : Type} (c : Codec V T) (norm : List (Pt3 V) → Except Err (Lis
     | .error e => .error e
     | .ok fs => if fs.isEmpty then .error .value else .ok ⟨fs, none⟩
 
+/-! ### elliptic 3-D files (`elliptic_network_3d_from_csv`; reader only, porepy has no writer) -/
+
+/-- the domain line: the first line of the file, whatever it is (a comment line is not skipped here:
+    `np.asarray(next(spam_reader), dtype=float)` raises ValueError on it) -/
+def readDomainE {V T : Type} (c : Codec V T) : List (Line T) → Except Err (Box3 V × List (Line T))
+  | [] => .error .stopIteration
+  | .comment _ :: _ => .error .value
+  | .data [] :: _ => .error .index
+  | .data cs :: rest =>
+    match decodeRow c .value cs with
+    | .error e => .error e
+    | .ok vs =>
+      match vs with
+      | x0 :: y0 :: z0 :: x1 :: y1 :: z1 :: _ => .ok (⟨x0, y0, z0, x1, y1, z1⟩, rest)
+      | _ => .error .index
+
+/-- the fracture loop: `row[0][0]` fails on a blank line (IndexError), a row must hold a multiple of 9
+    numbers, the first nine `center(3), major, minor, major_axis_angle, strike, dip, num_points` go to
+    `mk` = `create_elliptic_fracture` after the angle scaling -/
+def readFracsE {V T : Type} (c : Codec V T) (mk : List V → Except Err (List (Pt3 V))) :
+    List (Line T) → Except Err (List (List (Pt3 V)))
+  | [] => .ok []
+  | .comment _ :: rest => readFracsE c mk rest
+  | .data [] :: _ => .error .index
+  | .data cs :: rest =>
+    match decodeRow c .value cs with
+    | .error e => .error e
+    | .ok vs =>
+      if vs.length % 9 != 0 then .error .value
+      else
+        match mk (vs.take 9) with
+        | .error e => .error e
+        | .ok f =>
+          match readFracsE c mk rest with
+          | .error e => .error e
+          | .ok fs => .ok (f :: fs)
+
+/-- `elliptic_network_3d_from_csv(file_name, has_domain)` -/
+def readElliptic {V T : Type} (c : Codec V T) (mk : List V → Except Err (List (Pt3 V)))
+    (lines : List (Line T)) (hasDomain : Bool) : Except Err (Net3 V) :=
+  if hasDomain then
+    match readDomainE c lines with
+    | .error e => .error e
+    | .ok (b, rest) =>
+      match readFracsE c mk rest with
+      | .error e => .error e
+      | .ok fs => .ok ⟨fs, some b⟩
+  else
+    match readFracsE c mk lines with
+    | .error e => .error e
+    | .ok fs => if fs.isEmpty then .error .value else .ok ⟨fs, none⟩
+
+/-- a file of ellipse parameter rows, with an optional domain line -/
+def ellipticRows {V T : Type} (c : Codec V T) (params : List (List V)) (dom : Option (Box3 V)) : List (Line T) :=
+  (match dom with
+    | some b => [Line.data [c.enc b.xmin, c.enc b.ymin, c.enc b.zmin, c.enc b.xmax, c.enc b.ymax, c.enc b.zmax]]
+    | none => []) ++ params.map (fun p => Line.data (p.map c.enc))
+
 /-! ### txt data files -/
 
 abbrev Name := List Char
@@ -492,5 +550,71 @@ def strip {V : Type} (f : Frac2 V) : Frac2 V := ⟨f.a, f.b, []⟩
 inductive Pointwise {α β : Type} (R : α → β → Prop) : List α → List β → Prop
   | nil : Pointwise R [] []
   | cons {a b l m} : R a b → Pointwise R l m → Pointwise R (a :: l) (b :: m)
+
+/-! ### polyline files (format 2 of `network_2d_from_csv`): specification -/
+
+/-- one polyline of a format-2 file: its id and its points in file order -/
+structure Poly (V : Type) where
+  id : V
+  pts : List (Pt2 V)
+
+def allPts {V : Type} : List (Poly V) → List (Pt2 V)
+  | [] => []
+  | P :: Ps => P.pts ++ allPts Ps
+
+/-- consecutive points of a chain as fractures: neighbours share an end point -/
+def segs {V : Type} : List (Pt2 V) → List (Frac2 V)
+  | p :: q :: r => ⟨p, q, []⟩ :: segs (q :: r)
+  | _ => []
+
+def polySegs {V : Type} : List (Poly V) → List (Frac2 V)
+  | [] => []
+  | P :: Ps => segs P.pts ++ polySegs Ps
+
+def polyIds {V : Type} (n : Num V) : List (Poly V) → List Int
+  | [] => []
+  | P :: Ps => List.replicate (P.pts.length - 1) (n.toIdx P.id) ++ polyIds n Ps
+
+/-- an optional header comment line -/
+def hdrLines {T : Type} : Option String → List (Line T)
+  | some h => [Line.comment h]
+  | none => []
+
+/-- the rows `FID, PT_X, PT_Y` of a format-2 file -/
+def polyRowsSpec {V T : Type} (c : Codec V T) : List (Poly V) → List (Line T)
+  | [] => []
+  | P :: Ps => P.pts.map (fun p => Line.data [c.enc P.id, c.enc p.1, c.enc p.2]) ++ polyRowsSpec c Ps
+
+/-! ### PlaneFracture's vertex normalisation: angular sort, and the symmetry it leaves open -/
+
+/-- insertion into a list ascending in the key `θ` (`θ` = the angle `arctan2` of the vertex in the
+    fracture's local coordinates about the centroid; a binary64, hence a rational) -/
+def insertBy {P : Type} (θ : P → Rat) (p : P) : List P → List P
+  | [] => [p]
+  | a :: l => if θ a < θ p then a :: insertBy θ p l else p :: a :: l
+
+/-- `pts[:, np.argsort(theta)]` (keys pairwise different) -/
+def angSort {P : Type} (θ : P → Rat) : List P → List P
+  | [] => []
+  | p :: l => insertBy θ p (angSort θ l)
+
+/-- PlaneFracture's constructor as the 3-D reader uses it, record layer + vertex sorting: at least
+    three vertices, then the angular sort with the key function the constructor derives from the
+    vertex list it is given (`θof`) -/
+def normSort {V : Type} (θof : List (Pt3 V) → Pt3 V → Rat) (f : List (Pt3 V)) : Except Err (List (Pt3 V)) :=
+  if f.length < 3 then .error .value else .ok (angSort (θof f) f)
+
+def StrictAsc {P : Type} (θ : P → Rat) (a : List P) : Prop := a.Pairwise (fun x y => θ x < θ y)
+
+/-- cyclic rotation of a vertex list by `k` -/
+def rot {α : Type} (k : Nat) (l : List α) : List α := l.drop (k % l.length) ++ l.take (k % l.length)
+
+/-- the same vertex cycle: equal up to a rotation, possibly reversed (the dihedral group of the polygon) -/
+def Dihedral {α : Type} (g f : List α) : Prop := ∃ k, g = rot k f ∨ g = (rot k f).reverse
+
+/-- the vertices, in the order given, go once around the polygon as seen from the key `θ`: some
+    rotation of the list, or of its reverse, is strictly ascending in `θ` (convex planar polygon in
+    general position, given in cyclic order) -/
+def CyclicMono {P : Type} (θ : P → Rat) (f : List P) : Prop := ∃ a, StrictAsc θ a ∧ Dihedral f a
 
 end PorepyVerif.C47
